@@ -1310,6 +1310,7 @@ def gen_hit_case(rng, n, idx):
     if idx % 4 == 1:
         case['rpc_timeout'] = 12.0
         case['delay'] = [2.6, 5.5]
+        case['settle'] = max(case['settle'], 2000)      # round trips of 5-11 s: the first refresh cycle takes that long
     elif idx % 4 == 3:
         case['rpc_timeout'] = 0.5
         case['delay'] = [0.001, rng.choice([0.02, 0.1])]
@@ -1341,8 +1342,13 @@ def run_hit_case(run, model, case):
                     continue
                 ip, udp, tcp = sim.endpoints[a]
                 if (ip, tcp) not in got:
-                    missing.append((i, a, udp, tcp))
-                if not storing:
+                    if a in unconverged:
+                        info['unconverged_misses'] = info.get('unconverged_misses', 0) + 1
+                    else:
+                        missing.append((i, a, udp, tcp))
+                vf = [f for f in sim.traces if f.KIND == 'value' and f.key == blob and f.protocol is sim.nodes[i].protocol]
+                yielded = bool(vf) and any(p.node_id == sim.nodes[a].protocol.node_id for p in vf[-1].blob_peers)
+                if not storing and yielded:      # the producer was handed this announcer by its value finder
                     r = model.call('producer', is_self=False, good=None, udp=None, tcp=tcp)
                     tried = sim.net.ports_tried.get((sim.addr(i), ip), set())
                     guesses['%d>%d' % (i, a)] = (r[0] == 'ping' and r[1] in tried, True)
@@ -1353,7 +1359,20 @@ def run_hit_case(run, model, case):
                             f'announcer {a} (udp {udp} / tcp {tcp}); {len(missing)} (searcher, announcer) pairs missing')
         return problems, guesses
 
+    unconverged = set()      # announcers whose announcement went out before the network had converged (see below)
+
+    def restamp(blob, announcers, windows):
+        """the announcement's age is judged by the STORING nodes' clocks: a duplicated or delayed store datagram may
+        be processed (and refresh the timestamp) after announce_blob() has returned"""
+        for a in announcers:
+            aid = sim.nodes[a].protocol.node_id
+            ts = [t for nd in sim.nodes for p, t in nd.protocol.data_store._data_store.get(blob, []) if p.node_id == aid]
+            if ts:
+                windows[a] = (min(windows[a][0], min(ts)), max(windows[a][1], max(ts)))
+
     async def lookups(label, blob, announcers, must, windows):
+        restamp(blob, announcers, windows)
+
         async def one(i):
             t0 = sim.loop.time()
             found, finder, fin = await sim.value_lookup(i, blob, max_probes=2000)
@@ -1372,7 +1391,10 @@ def run_hit_case(run, model, case):
                     if t1 >= lo + EXPIRY:
                         late += 1
                     elif aid not in ids:
-                        misses.append((i, a))
+                        if a in unconverged:
+                            info['unconverged_misses'] = info.get('unconverged_misses', 0) + 1
+                        else:
+                            misses.append((i, a))
                 elif must == 'miss' and t0 > hi + EXPIRY and aid in ids:
                     hits.append((i, a))
         info['checkpoints'][label] = {'lookups': len(results), 'misses': len(misses), 'stale_hits': len(hits), 'late': late}
@@ -1418,6 +1440,12 @@ def run_hit_case(run, model, case):
                 problems.append(f'node {a} could not announce to {need} nodes in 40 attempts (stored to {len(stored)})')
             close = {nd.protocol.node_id for nd in sim.true_closest(blob, exclude=(a,))[:K]}
             info['closest_overlap'].append([len(close & set(stored)), min(K, n - 1)])
+            # premise of the whole-network clause: the network had converged when the blob was announced, judged by the
+            # announcement having reached at least half of the nodes truly closest to the hash; otherwise later lookups,
+            # which home in on the true closest nodes, may legitimately miss it (counted in supporting_only only)
+            if 2 * len(close & set(stored)) < min(K, n - 1):
+                unconverged.add(a)
+                info['unconverged_announcements'] = info.get('unconverged_announcements', 0) + 1
             # "stored on nodes closest to its hash": of all peers the announcer's own lookup was given (the peers that
             # replied), the blob must be stored on exactly the K closest to the hash
             fs = [f for f in sim.traces if f.KIND == 'node' and f.key == blob and f.protocol is sim.nodes[a].protocol]
@@ -1445,6 +1473,8 @@ def run_hit_case(run, model, case):
         else:
             await quiescent_jump_to(sim, first_lo + EXPIRY - 150)
         problems += await lookups('24h-150s', blob, announcers, 'hit', windows)
+        restamp(blob, announcers, windows)
+        last_hi = max(w[1] for w in windows.values())
         if case['passage'] == 'real':
             await asyncio.sleep(max(0.0, last_hi + EXPIRY + 0.5 - sim.loop.time()))
         else:
@@ -2180,6 +2210,8 @@ def main(run):
             supporting['closest_overlap'][k] = supporting['closest_overlap'].get(k, 0) + 1
         for t in info['tries']:
             supporting['announce_tries'][str(t)] = supporting['announce_tries'].get(str(t), 0) + 1
+        supporting['unconverged_announcements'] = supporting.get('unconverged_announcements', 0) + info.get('unconverged_announcements', 0)
+        supporting['unconverged_misses'] = supporting.get('unconverged_misses', 0) + info.get('unconverged_misses', 0)
         bs = supporting['by_size'].setdefault(str(n), {'runs': 0, 'misses': 0})
         bs['runs'] += 1
         bs['misses'] += sum(cp['misses'] for cp in info['checkpoints'].values())
@@ -2280,7 +2312,10 @@ def main(run):
         'routing table, ping queue, token handling and join/refresh are exercised by the simulation but not modelled',
     ]
     supporting['note'] = ('supporting evidence only, never an obligation. An announcement counts once announce_blob() '
-                          'returned >= min(5, n-1) node ids (the BlobAnnouncer success rule; it retries every 60 s before). '
+                          'returned >= min(5, n-1) node ids (the BlobAnnouncer success rule; it retries every 60 s before); its misses only count as '
+                          'violations when the announcement reached at least half of the nodes truly closest to the hash (else the network had '
+                          'not converged when it was made: unconverged_announcements / unconverged_misses); its age is judged by the '
+                          'timestamps in the storing nodes (a duplicated store datagram may refresh it after announce_blob returned). '
                           '"replied" for node lookups is judged per (address, port); alias_id_yields counts yielded contacts '
                           'whose node id nobody owns (hostile alias_contacts / claims_key replies) - reported here only.')
     supporting['wall_s'] = round(_walltime.time() - t_start, 1)
